@@ -773,6 +773,269 @@ def case_eigen_batch(case):
 
 
 # ------------------------------------------------------------------------------------------
+# histories of one Transformation object: eigen-data answer for the CURRENT matrix (mc/diffhist.py)
+# ------------------------------------------------------------------------------------------
+H_VALS = [1, 2, -1, 3, -2, 4]
+H_QUERIES = ["q-diag", "q-diaginv", "q-eigvec-lam", "q-eigvec", "q-inv"]
+H_MUTS = ["setitem-0", "setitem-last", "setitem-all", "set", "apply-left", "apply-right", "reshape", "index-0", "astype"]
+H_TOL = 1e-7
+
+
+def _h_member(n, j, seed):
+    """j-th member of the exact alphabet: [conjugator index, U] with U = diag(n distinct integers)"""
+    nq = len(L.unimodular_family(n))
+    D = [H_VALS[(j + a) % len(H_VALS)] for a in range(n)]
+    return [(j + seed) % nq, [[D[a] if a == b else 0 for b in range(n)] for a in range(n)]]
+
+
+def _h_conj(n, qi, U):
+    """exact integer matrix Q^-1 U Q"""
+    Q = L.unimodular_family(n)[qi]
+    return L.imatmul(L.unimodular_inverse(Q), L.imatmul(U, Q))
+
+
+def _h_shear(n):
+    """W = 1 + superdiagonal: U W and W U are upper triangular with the diagonal of U (same distinct
+    eigenvalues) but other eigenvectors, and do not commute with U"""
+    return [[1 if (a == b or b == a + 1) else 0 for b in range(n)] for a in range(n)]
+
+
+def _h_array(n, members, shape, what="matrix"):
+    mats = [_h_conj(n, qi, U if what == "matrix" else _h_shear(n)) for qi, U in members]
+    return np.array(mats, dtype=float).reshape(tuple(shape) + (n, n))
+
+
+def h_shape_after(shape, op):
+    """composite shape after a mutating op, or None when the op is not enabled for this shape"""
+    shape = tuple(shape)
+    cnt = int(np.prod(shape)) if shape else 1
+    if op == "setitem-0":
+        return shape if len(shape) >= 1 else None
+    if op == "setitem-last":
+        return shape if (len(shape) >= 1 and cnt > 1) else None
+    if op == "index-0":
+        return shape[1:] if len(shape) >= 1 else None
+    if op == "reshape":
+        return shape + (1,) if len(shape) < 2 else (cnt,)
+    return shape
+
+
+def _h_queries(T, A, members, n, lam):
+    """every query on T judged through its defining equation on the current matrices A (row convention:
+    proj_data acts on row vectors, v A = lam v).  Returns {query: (defect message or None, raw result)}."""
+    from geometry_tools.base import GeometryError
+    shape = A.shape[:-2]
+    cnt = int(np.prod(shape)) if shape else 1
+    Af = A.reshape((cnt, n, n))
+    scale = 1.0 + float(np.max(np.abs(A)))
+    eye = np.eye(n)
+    out = {}
+
+    def frame_defect(Cm, Cim):
+        if Cm.shape != A.shape or (Cim is not None and Cim.shape != A.shape):
+            return "frame of shape %r for a transformation of shape %r" % (Cm.shape, A.shape)
+        Cf = Cm.reshape((cnt, n, n))
+        for j in range(cnt):
+            if not np.all(np.isfinite(Cf[j])) or np.linalg.cond(Cf[j]) > 1e8:
+                return "member %d: frame %r is singular" % (j, Cf[j].tolist())
+            Ci = np.linalg.inv(Cf[j]) if Cim is None else Cim.reshape((cnt, n, n))[j]
+            if Cim is not None and not float(np.max(np.abs(Cf[j] @ Ci - eye))) <= H_TOL * np.linalg.cond(Cf[j]):
+                return "member %d: the returned inverse is not the inverse of the returned frame" % j
+            Dg = Cf[j] @ Af[j] @ Ci
+            off = float(np.max(np.abs(Dg - np.diag(np.diag(Dg)))))
+            dd = sorted(np.real(np.diag(Dg)).tolist())
+            want = sorted(float(members[j][1][a][a]) for a in range(n))
+            if not (off <= H_TOL * scale * np.linalg.cond(Cf[j]) and _maxerr(np.array(dd), np.array(want)) <= 1e-6 * scale):
+                return ("member %d (eigenvalues %r): M^-1 T M for the reported frame has off-diagonal part %.3g, diagonal %r"
+                        % (j, want, off, dd))
+        return None
+
+    C = T.diagonalize()
+    out["diagonalize"] = (frame_defect(np.asarray(C.matrix), None), None)
+    r = T.diagonalize(return_inv=True)
+    if not (isinstance(r, tuple) and len(r) == 2):
+        out["diagonalize-return_inv"] = ("returned %r" % (type(r),), None)
+    else:
+        out["diagonalize-return_inv"] = (frame_defect(np.asarray(r[0].matrix), np.asarray(r[1].matrix)), None)
+
+    has = [any(members[j][1][a][a] == lam for a in range(n)) for j in range(cnt)]
+    try:
+        P = T.eigenvector(float(lam))
+    except GeometryError:
+        P = None
+    if P is None:
+        out["eigenvector-lambda"] = (None if not any(has) else "GeometryError although %r is an eigenvalue" % lam, None)
+    else:
+        vec = np.asarray(P.proj_data)
+        msg = None
+        if vec.shape != shape + (n,):
+            msg = "eigenvector data of shape %r for a transformation of shape %r" % (vec.shape, shape)
+        else:
+            vf = vec.reshape((cnt, n))
+            for j in range(cnt):
+                mx = float(np.max(np.abs(vf[j]))) if np.all(np.isfinite(vf[j])) else float("inf")
+                if has[j]:
+                    u = vf[j] / (mx if 0 < mx < float("inf") else 1.0)
+                    e = float(np.max(np.abs(u @ Af[j] - lam * u))) if 1e-6 <= mx < float("inf") else float("inf")
+                    if not e <= H_TOL * scale:
+                        msg = "member %d: |v T - lambda v| = %.3g for lambda=%r, v=%r" % (j, e, lam, vf[j].tolist())
+                elif not mx <= 1e-12:
+                    msg = "member %d does not have the eigenvalue %r but got the coordinates %r" % (j, lam, vf[j].tolist())
+                if msg:
+                    break
+        out["eigenvector-lambda"] = (msg, P)
+
+    P = T.eigenvector()
+    vec = np.asarray(P.proj_data)
+    msg = None
+    if vec.shape != shape + (n,):
+        msg = "eigenvector() data of shape %r for a transformation of shape %r" % (vec.shape, shape)
+    else:
+        vf = vec.reshape((cnt, n))
+        for j in range(cnt):
+            mx = float(np.max(np.abs(vf[j]))) if np.all(np.isfinite(vf[j])) else float("inf")
+            if not 1e-6 <= mx < float("inf"):
+                msg = "member %d: eigenvector() returned %r" % (j, vf[j].tolist())
+                break
+            u = vf[j] / mx
+            e = min(float(np.max(np.abs(u @ Af[j] - members[j][1][a][a] * u))) for a in range(n))
+            if not e <= H_TOL * scale:
+                msg = "member %d: eigenvector() = %r is not an eigenvector (best |v T - mu v| = %.3g)" % (j, u.tolist(), e)
+                break
+    out["eigenvector-any"] = (msg, None)
+
+    Ti = T.inv()
+    Im = np.asarray(Ti.matrix)
+    if Im.shape != A.shape:
+        out["inv"] = ("inverse of shape %r" % (Im.shape,), None)
+    else:
+        e = float(np.max(np.abs(Im.reshape((cnt, n, n)) @ Af - eye)))
+        out["inv"] = (None if e <= H_TOL * scale else "|T^-1 T - 1| = %.3g" % e, Ti)
+    return out
+
+
+@_quiet
+def case_history(case):
+    """ops on one Transformation; afterwards every query must satisfy its defining equation for the CURRENT
+    proj_data, exactly as on a fresh Transformation built from a copy of it."""
+    from geometry_tools import projective
+    from mc import diffhist
+    n, shape, ops, seed = case["n"], tuple(case["shape"]), case["ops"], case["seed"]
+    cnt = int(np.prod(shape)) if shape else 1
+    members = [_h_member(n, j, seed) for j in range(cnt)]
+    nxt = cnt                                    # index of the next unused alphabet member
+    T = projective.Transformation(_h_array(n, members, shape))
+    lam0 = members[0][1][0][0]
+    t, last = 1, "construct"
+    for op in ops:
+        t += 1
+        if op.startswith("q-"):
+            if op == "q-diag":
+                T.diagonalize()
+            elif op == "q-diaginv":
+                T.diagonalize(return_inv=True)
+            elif op == "q-eigvec-lam":
+                T.eigenvector(float(members[0][1][0][0]))
+            elif op == "q-eigvec":
+                T.eigenvector()
+            elif op == "q-inv":
+                T.inv()
+            continue
+        new_shape = h_shape_after(shape, op)
+        if new_shape is None:
+            return {"v": [], "t": t, "o": "n/a", "nt": False}
+        if op in ("setitem-0", "setitem-last"):
+            j = 0 if op == "setitem-0" else cnt - 1
+            mem = _h_member(n, nxt, seed)
+            nxt += 1
+            T[tuple(int(x) for x in np.unravel_index(j, shape))] = projective.Transformation(_h_array(n, [mem], ()))
+            members[j] = mem
+        elif op in ("setitem-all", "set"):
+            new = [_h_member(n, nxt + j, seed) for j in range(cnt)]
+            nxt += cnt
+            if op == "set":
+                T.set(_h_array(n, new, shape))
+            else:
+                T[...] = projective.Transformation(_h_array(n, new, shape))
+            members = new
+        elif op in ("apply-left", "apply-right"):
+            S = projective.Transformation(_h_array(n, members, shape, "shear"))
+            W = _h_shear(n)
+            if op == "apply-left":             # (S @ T).matrix = T.matrix S.matrix = Q^-1 U W Q
+                T = S @ T
+                members = [[qi, L.imatmul(U, W)] for qi, U in members]
+            else:
+                T = T @ S
+                members = [[qi, L.imatmul(W, U)] for qi, U in members]
+        elif op == "reshape":
+            T = T.reshape(new_shape)
+        elif op == "index-0":
+            T = T[0]
+            members = members[:int(np.prod(new_shape)) if new_shape else 1]
+        elif op == "astype":
+            T = T.astype(complex)
+        shape = new_shape
+        cnt = int(np.prod(shape)) if shape else 1
+        last = op
+    if type(T) is not projective.Transformation:
+        return {"v": [_V("history/type", "after %r the object is a %s" % (ops, type(T).__name__))], "t": t, "o": "type", "nt": True}
+    A = np.array(T.proj_data)
+    model = _h_array(n, members, shape)
+    if A.shape != model.shape or not np.array_equal(A, model):
+        # the ops did not produce the matrices the model expects (item assignment / apply are other
+        # properties' business): no eigen-data can be demanded from the model's spectrum
+        return {"v": [], "t": t, "o": "model-mismatch|%s" % "-".join(ops), "nt": False}
+    lam = members[0][1][0][0]
+    fresh = projective.Transformation(A.copy())
+    got = _h_queries(T, A, members, n, lam)
+    want = _h_queries(fresh, A, members, n, lam)
+    t += 12
+    v = []
+    for q in sorted(got):
+        bad, res = got[q]
+        fbad, fres = want[q]
+        if bad is not None:
+            v.append(_V("history/%s/after-%s%s" % (q, last, "" if fbad is None else "/fresh-object-fails-too"),
+                        "n=%d shape %r after %r: %s%s" % (n, case["shape"], ops, bad,
+                                                         "" if fbad is None else " (a fresh object with the same data: %s)" % fbad)))
+        elif fbad is not None:
+            v.append(_V("history/%s/fresh-object-only" % q, "n=%d shape %r after %r: fresh object with the final data: %s" % (n, case["shape"], ops, fbad)))
+        elif res is not None and fres is not None:
+            # determined up to projective scale (distinct eigenvalues): the differential oracle proper
+            fa, fb = diffhist.flatten_result(res), diffhist.flatten_result(fres)
+            if len(fa) == len(fb) == 1 and fa[0][1].shape == fb[0][1].shape:
+                # documented degenerate (zero) coordinates of members without the eigenvalue are not projective
+                # points: already judged above, replaced on both sides before the projective comparison
+                xa, xb = np.array(fa[0][1]), np.array(fb[0][1])
+                zero = (np.max(np.abs(xa), axis=-1) <= 1e-12) & (np.max(np.abs(xb), axis=-1) <= 1e-12)
+                xa[zero] = 1.0
+                xb[zero] = 1.0
+                fa, fb = [(fa[0][0], xa)], [(fb[0][0], xb)]
+            if not diffhist.same_result(fa, fb, q):
+                v.append(_V("history/%s/differs-from-fresh-object/after-%s" % (q, last),
+                            "n=%d shape %r after %r: %r, a fresh object with the same data gives %r"
+                            % (n, case["shape"], ops, np.asarray(res.proj_data).tolist(), np.asarray(fres.proj_data).tolist())))
+    return {"v": v[:4], "t": t, "o": "%d|%r|%s|%s" % (n, case["shape"], "-".join(ops), A.dtype), "nt": True}
+
+
+def history_cases(ns, shapes, depth, seed):
+    allops = H_QUERIES + H_MUTS
+    seqs = [list(x) for d in range(2, depth + 1) for x in itertools.product(allops, repeat=d)
+            if x[-1] in H_MUTS and any(o in H_QUERIES for o in x[:-1])]
+    for n in ns:
+        for shape in shapes:
+            for ops in seqs:
+                sh = tuple(shape)
+                for op in ops:
+                    if op in H_MUTS:
+                        sh = h_shape_after(sh, op)
+                        if sh is None:
+                            break
+                if sh is not None:
+                    yield {"n": n, "shape": list(shape), "ops": ops, "seed": seed}
+
+
+# ------------------------------------------------------------------------------------------
 # enumeration
 # ------------------------------------------------------------------------------------------
 def _lam_list(field):
@@ -861,6 +1124,11 @@ def run(ctx):
     ctx.tolerances["orthogonality"] = "1e-10 (QR of integer vectors)"
     ctx.tolerances["rank"] = "relative singular value threshold 1e-8 on row-normalised stacks"
     ctx.tolerances["eigen"] = "1e-9*(1+|T|) (measured 2e-14 on the alphabet)"
+    ctx.tolerances["eigen histories"] = ("1e-7*(1+|T|) (times cond(frame) for the frame); a stale eigenvector / frame belongs to a matrix with other "
+                                         "eigenvectors and misses by >= 1e-2")
+    ctx.assume("histories: every state is Q^-1 U Q with Q integer unimodular and U integer upper triangular with distinct diagonal (distinct "
+               "integer eigenvalues, so eigenvectors are unique up to scale and the matrix is diagonalisable); a case whose final proj_data "
+               "is not exactly the model's matrix is skipped (item assignment / composition are other properties)")
 
     ctx.product("charts-roundtrip", "checks.c16:case_chart_roundtrip", roundtrip_cases(q),
                 domains={"N": "1..5", "charts": "0..N", "layouts": ["row", "column"], "fields": ["real", "complex"],
@@ -972,6 +1240,15 @@ def run(ctx):
                                 D[(j + seed + 1) % n] = lam          # multiplicity 2
                         members.append([(j + seed) % nq, D])
                     eig_mixed.append({"n": n, "lam": lam, "members": members, "shape": list(shape)})
+    h_ns, h_shapes, h_depth = ([2, 3, 4], [[], [2], [3]], 3) if q else ([2, 3, 4, 5], [[], [2], [3], [2, 2]], 3)
+    ctx.product("transformation-histories", "checks.c16:case_history", history_cases(h_ns, h_shapes, h_depth, seed),
+                domains={"n": h_ns, "composite shapes": h_shapes, "alphabet": "Q^-1 D Q, D = n consecutive entries of %r (distinct), Q from the unimodular family" % H_VALS,
+                         "queries": H_QUERIES, "mutations": "T[k] = S (first / last member), T[...] = S, T.set(data), S @ T and T @ S with S = Q^-1 (1 + superdiagonal) Q "
+                                                            "(same eigenvalues, other eigenvectors, exact integer matrices), reshape, T[0], astype(complex)",
+                         "sequences": "length 2..%d ending in a mutation with a query before it" % h_depth,
+                         "oracle": "defining equations on the current proj_data (M^-1 T M diagonal with the model's eigenvalues, v T = lambda v, T^-1 T = 1), "
+                                   "also required of a fresh Transformation built from a copy of the data; eigenvector(lambda) and inv() compared with the fresh "
+                                   "object's up to projective scale (mc/diffhist.py)"}, chunk=32)
     ctx.product("eigenvector-diagonalize", "checks.c16:case_eigen", eig_cases,
                 domains={"eigenvalue alphabet": vals, "n": "2..6", "conjugators": "unimodular family"}, chunk=32)
     ctx.product("eigenvector-diagonalize-batch", "checks.c16:case_eigen_batch", eig_batch,
